@@ -31,7 +31,7 @@ struct Round {
     int throw_at[S_NSITES] = {0};     // k-th call of that site throws (0 = never)
     int throw_n[S_NSITES] = {0};      // how many consecutive calls throw
     int next_tag = 1;
-    long live_ranges = 0, live_bodies = 0, live_functors = 0;
+    long live_ranges = 0, live_bodies = 0, live_functors = 0, live_tokens = 0;
     int points = 0;
 };
 Round* R = nullptr;
@@ -85,6 +85,19 @@ struct RedBody {
     void operator()(const XRange& x) { body_work(); sum += x.end() - x.begin(); }
     void join(RedBody& o) { maybe_throw(S_JOIN); sum += o.sum; }
 };
+// pipeline token that the library must keep on its heap (not trivially copyable, larger than a pointer)
+struct Tok {
+    static constexpr unsigned ALIVE = 0xa11fe5u, DEAD = 0xdeadu;
+    int v; unsigned mark; char pad[48];
+    explicit Tok(int x = 0) : v(x), mark(ALIVE) { R->live_tokens++; }
+    Tok(const Tok& o) : v(o.v), mark(ALIVE) { R->live_tokens++; }
+    Tok(Tok&& o) noexcept : v(o.v), mark(ALIVE) { R->live_tokens++; }
+    Tok& operator=(const Tok& o) { v = o.v; return *this; }
+    ~Tok() {
+        if (R && mark != ALIVE) sim::fail("oracle:object-destroyed-twice", "[%s] a pipeline token object (value %d) is destroyed although it is not alive (destroyed twice)", g_ctx.c_str(), v);
+        mark = DEAD; if (R) R->live_tokens--;
+    }
+};
 struct Functor {
     Functor() { R->live_functors++; }
     Functor(const Functor&) { R->live_functors++; }
@@ -112,7 +125,15 @@ void run_algo(const Setup& s, tbb::task_group* tg, tbb::flow::graph* g, tbb::flo
     case A_REDUCE: { XRange range(0, s.n, s.grain); RedBody b; if (s.part % 2) tbb::parallel_reduce(range, b, tbb::simple_partitioner()); else tbb::parallel_reduce(range, b); break; }
     case A_FOR_EACH: { std::vector<int> v((size_t)s.n); tbb::parallel_for_each(v.begin(), v.end(), [](int) { body_work(); }); break; }
     case A_INVOKE: { Functor f; tbb::parallel_invoke(f, f, f, f); break; }
-    case A_PIPELINE: {
+    case A_PIPELINE: if (s.part >= 2) {     // class-type tokens, filter modes from the plan
+        int produced = 0;
+        static const tbb::filter_mode fm[] = {tbb::filter_mode::parallel, tbb::filter_mode::serial_in_order, tbb::filter_mode::serial_out_of_order};
+        tbb::parallel_pipeline((size_t)(1 + s.grain),
+            tbb::make_filter<void, Tok>(tbb::filter_mode::serial_in_order, [&](tbb::flow_control& fc) -> Tok { if (produced >= s.n) { fc.stop(); return Tok(0); } return Tok(++produced); }) &
+            tbb::make_filter<Tok, Tok>(fm[s.nested % 3], [](Tok x) { body_work(); return x; }) &
+            tbb::make_filter<Tok, void>(fm[(s.nested / 3) % 3], [](const Tok&) { body_work(); }));
+        break;
+    } else {
         int produced = 0;
         tbb::parallel_pipeline((size_t)3,
             tbb::make_filter<void, int>(tbb::filter_mode::serial_in_order, [&](tbb::flow_control& fc) -> int { if (produced >= s.n) { fc.stop(); return 0; } return ++produced; }) &
@@ -142,7 +163,7 @@ SIM_SCENARIO(scen_c03, "c03", "C03", 6000000, 30000) {
     s.a = (Algo)sim::draw(A_NALGO, "algo");
     static const int ns[] = {1, 2, 3, 5, 8, 16, 40};
     s.n = sim::draw_of(ns, "n"); s.grain = (int)sim::draw_range(1, 3, "grain"); s.part = (int)sim::draw(4, "part");
-    s.nested = 0;
+    s.nested = s.a == A_PIPELINE ? (int)sim::draw(9, "filter_modes") : 0;
     tbb::task_arena arena((int)sim::draw_range(1, 4, "arena_conc"));
     s.arena = &arena;
     bool in_arena = sim::draw_bool("in_arena");
@@ -214,6 +235,7 @@ SIM_SCENARIO(scen_c03, "c03", "C03", 6000000, 30000) {
         for (int i = 0; i < 20; ++i) sim::upoint();
         SIM_CHECK(rd.live_ranges == 0, "oracle:object-balance", "[%s] %ld Range objects of the cancelled work were not destroyed (or destroyed twice)", g_ctx.c_str(), rd.live_ranges);
         SIM_CHECK(rd.live_bodies == 0, "oracle:object-balance", "[%s] %ld Body objects of the cancelled work were not destroyed (or destroyed twice)", g_ctx.c_str(), rd.live_bodies);
+        SIM_CHECK(rd.live_tokens == 0, "oracle:object-balance", "[%s filter_modes=%d] %ld pipeline token object(s) created by the library for the cancelled work were not destroyed", g_ctx.c_str(), s.nested, rd.live_tokens);
         SIM_CHECK(rd.live_functors == 0, "oracle:object-balance", "%ld functor copies of the cancelled work were not destroyed (or destroyed twice)", rd.live_functors);
         if (rd.thrown.size() >= 2) sim::probe("several-throwers");
         R = nullptr;
